@@ -125,7 +125,7 @@ def mutants(chk, prop, tier, wd, tape_files):
     import fam_parser
     rng = random.Random(common.seed())
     outs = []
-    heavy = prop in ("C06", "C17", "C19")
+    heavy = prop in ("C06", "C19")
     per_start = int(os.environ.get("VERIF_MUTANT_SEEDS", "0")) or ((400 if heavy else 4000) if tier == "quick" else (4000 if heavy else 30000))
     for (tapes, n) in tape_files:
         tag = os.path.basename(tapes)[6:-7]
@@ -364,7 +364,7 @@ def obs_finding(prop, tagp, rec):
                 "detail": "nodes %s" % rec["nodes"][:6], "line": 0, "obs": rec}
     if prop == "C17":
         kinds = [n["kind"] for n in rec["nodes"]]
-        return {"prop": "C17", "kind": "traversal", "start": "", "profile": "", "text": "tree of %d nodes: %s" % (len(kinds), " ".join(kinds[:12])),
+        return {"prop": "C17", "kind": "traversal", "start": "", "profile": "", "text": rec.get("src") or "tree of %d nodes: %s" % (len(kinds), " ".join(kinds[:12])),
                 "detail": "roots %s; first run log %s" % (rec["roots"], rec["runs"][0]["log"][:8]), "line": 0, "obs": rec}
     return {"prop": "C19", "kind": "position-expression", "start": "", "profile": "", "text": "%s pos=%s end=%s" % (rec["kind"], rec["pos"], rec["end"]),
             "detail": "interpreter %s/%s env %s" % (rec["ipos"], rec["iend"], json.dumps(rec["env"])[:300]), "line": 0, "obs": rec}
